@@ -267,6 +267,35 @@ def _maps_on_layout(repo, it, S, layout, strand_name, pre=False):
                     ok = got_seq == exp
                 if not ok:
                     out.append(("relative_interval", f"{desc}.relative_interval_to_parent_location({rs},{re_},{rstr}) -> {blocks_of(v)}:{got_strand} = bases {got_seq}; the point-wise map yields {exp}", f_riv.qual))
+    # a location derived from one whose lazily built parts exist already (blocks, sequence) maps like a fresh one
+    if pre and L > 0:
+        other = "MINUS" if strand_name == "PLUS" else "PLUS"
+        seq2 = enum_positions(stored, other)
+        for how, args in (("reverse_strand", []), ("reset_strand", [S[other]])):
+            fd = repo.fn(f"{LOC}:{cls}.{how}")
+            run(it, it.method(loc, "blocks"), [], {}, loc)
+            k, dv = run(it, fd, args, {}, loc)
+            n += 1
+            if k != "ok":
+                out.append((f"{how} after history", f"{desc}.{how}() raises {dv}", fd.qual))
+                continue
+            dcls = dv.cls_name
+            seq2 = enum_positions(blocks_of(dv), other)  # (blocks with equal starts are re-ordered for the other strand)
+            if sorted(seq2) != sorted(seq):
+                out.append((f"{how} after history", f"{desc}.{how}() has blocks {blocks_of(dv)}", fd.qual))
+                continue
+            for rpos in range(L):
+                n += 2
+                k1, v1 = run(it, repo.fn(f"{LOC}:{dcls}.relative_to_parent_pos"), [rpos], {}, dv)
+                k2, v2 = run(it, repo.fn(f"{LOC}:{dcls}.parent_to_relative_pos"), [seq2[rpos]], {}, dv)
+                if k1 != "ok" or v1 != seq2[rpos]:
+                    out.append((f"{how} after history", f"{desc}: after its blocks were listed, .{how}().relative_to_parent_pos({rpos}) -> {k1}:{v1}; "
+                                f"on the {other} strand the {rpos}-th base is {seq2[rpos]}", fd.qual))
+                    break
+                if k2 != "ok" or (not overlapping and v2 != rpos) or (overlapping and not (isinstance(v2, int) and 0 <= v2 < L and seq2[v2] == seq2[rpos])):
+                    out.append((f"{how} after history", f"{desc}: after its blocks were listed, .{how}().parent_to_relative_pos({seq2[rpos]}) -> {k2}:{v2}; "
+                                f"expected {rpos}", fd.qual))
+                    break
     # parent interval -> relative location (non-overlapping layouts; query = single interval)
     if not overlapping and L > 0:
         for qs in range(lo, hi):
